@@ -23,6 +23,7 @@ RULE = (
     "async, class, truth vector, script)."
     ' Fixed scenario: captured values that are awaitable objects of their own right (object with __await__, finishe'
     'd future) reach postconditions and error factories as the very object, un-awaited (sync and async).'
+    ' One snapshot decorator OBJECT applied twice to one function is the same name given twice (ValueError at definition).'
 )
 ASSUMPTIONS = ["reference model encodes the statement's snapshot rules"]
 
